@@ -57,7 +57,8 @@ class CHECK(Check):
             "own property names) over mixed field kinds x files of 0-10 registers of the type interleaved with registers of "
             "another type, of a SUBCLASS type adding 0-2 properties, and free-text lines; 1-3 successive views of parent / child / other type on the same file; missing values (None/NaN/NaT) in any position; observed: column names, shape, "
             "every cell after null canonicalisation, custom_properties, and the registers' data after editing the frame in "
-            "place. non-trivial = at least 2 registers of the type and 1 property; distinct = hash")
+            "place. non-trivial = at least 2 registers of the type and 1 property; distinct = hash"
+            " Later additions: dates outside the datetime64[ns] window, list-valued property values, a subclass type adding properties, two files.")
     not_exhibited = ["pandas dtype inference and null representation (cells are compared after null canonicalisation)"]
 
     def gen(self, tier, rng):
